@@ -147,7 +147,9 @@ func vRecognise(rec []byte) vRefHello {
 	return r
 }
 
-func vCheckPassthrough(rec []byte, keys []Key, strict bool) { vCheckPassthroughTLS(rec, keys, strict, true) }
+func vCheckPassthrough(rec []byte, keys []Key, strict bool) {
+	vCheckPassthroughTLS(rec, keys, strict, true)
+}
 
 func vCheckPassthroughTLS(rec []byte, keys []Key, strict, tlsOracle bool) {
 	tr := newVTransport(rec)
